@@ -208,6 +208,12 @@ def mutate(rng, s):
 
 def mutation_cases(rng, tier, seeds):
     out = [Case(["dparse " + enc(s)], ["mutation", "fixed"], kind="mut", text=s) for s in FIXED_MUT]
+    # week dates are rejected by the date-time-like fallback
+    for _ in range(300 if tier == "quick" else 3000):
+        Y, W, D = rng.randint(0, 9999), rng.randint(0, 99), rng.randint(0, 9)
+        h, mi, s = rng.randint(0, 99), rng.randint(0, 99), rng.randint(0, 99)
+        t = ("P%04d-W%02d-%dT%02d:%02d:%02d" if rng.random() < 0.5 else "P%04dW%02d%dT%02d%02d%02d") % (Y, W, D, h, mi, s)
+        out.append(Case(["dparse " + enc(t)], ["mutation", "week-date"], kind="mut", text=t))
     n = 20000 if tier == "quick" else 200000
     for _ in range(n):
         r = rng.random()
